@@ -71,6 +71,10 @@ fn complete_half(c: &mut ChanState, h: &crate::mock::Handle, _res: &mut CaseResu
 }
 
 fn case(r: &mut Rng, racy: bool, res: &mut CaseResult) {
+    if r.chance(1, 3) {
+        session::ambient_jitter(Some(r.next()));
+        res.tags.insert("transport jitter".to_string());
+    }
     hooks::set_recording(true);
     let (conn, h) = session::open_default(Reflex::default());
     let mut conn = match conn {
